@@ -279,8 +279,17 @@ func (r *Run) checkAuthorizeSuccess(st Step, cs *ClientSpec, g *Grant, res *Resp
 	if len(regRT) == 0 {
 		regRT = []string{"code"}
 	}
+	// the library documents its argument lists as case-insensitive (fosite.Arguments); the statement says "as a set" and nothing
+	// about letter case, so values are folded before the SETS are compared ("code CODE" is the set {code})
+	fold := func(xs []string) []string {
+		var out []string
+		for _, x := range xs {
+			out = appendUniq(out, strings.ToLower(x))
+		}
+		return out
+	}
 	for _, reg := range regRT {
-		if sameSet(splitNonEmpty(reg), rtype) {
+		if sameSet(fold(splitNonEmpty(reg)), fold(rtype)) {
 			okRT = true
 		}
 	}
